@@ -44,6 +44,7 @@ func (w *walker[F]) viol(sig string, script []string, f string, a ...any) {
 // observe compares every observer of s with the reference list.
 func (w *walker[F]) observe(s F, ref []int, script []string, when string) bool {
 	w.r.Evaluations++
+	drv.Tick()
 	if n := w.tr.Length(s); n != len(ref) {
 		w.viol("length", script, "%s: Length = %d, want %d", when, n, len(ref))
 		return false
